@@ -228,7 +228,14 @@ def name_pattern(ck, S, fn, rid, date_is_class):
     el = [n for n in fn.calls("QDir::entryList")]
     ck.require(len(el) == 1, "%s: entryList not found" % short)
     fl = const_int(el[0]["args"][0]) if el[0].get("args") else None
-    ck.ob(rid, sitestr(fn, el[0]), fl == 2, "only regular files are listed (QDir::Files)" if fl == 2 else "entryList filter is %s" % fl, key="%s|entry-filter" % short)
+    if fl is None and el[0].get("args"):
+        fl = skip_copies(el[0]["args"][0]).get("cv")
+    # QDir::Files = 0x002, Dirs = 0x001, Hidden = 0x100: every file that can carry a rotated name must be listed, also the rotated
+    # files of a dot-file log (~/.app.log), which QDir leaves out unless Hidden is given; directories are no candidates
+    okf = fl is not None and bool(fl & 0x002) and bool(fl & 0x100) and not (fl & 0x001)
+    ck.ob(rid, sitestr(fn, el[0]), okf if fl is not None else None, "regular files, hidden ones included, are listed (QDir::Files | QDir::Hidden)" if okf else
+          "entryList filter is %s: %s" % (hex(fl) if fl is not None else "not a constant", "hidden files are left out, so for a log file whose name starts with a dot no rotated file is ever seen "
+          "(next index always 1: the previous archive is overwritten; retention never deletes)" if fl is not None and fl & 2 and not fl & 0x100 else "not exactly the regular files"), key="%s|entry-filter" % short)
     # the two variants are selected by suffix.isEmpty()
     return tpls
 
